@@ -41,6 +41,8 @@ def _one(args) -> dict:
     try:
         ctx = Context(tier="quick", overlay=overlay)
         mod.run(ctx, rep)
+        if rep.unmet_floors() and not rep.violations:
+            raise AnalysisError("; ".join(rep.unmet_floors()))
         known = {f["key"] for f in load_known().get("findings", [])}
         vs = [v for v in rep.violations if v.key(pid) not in known]
         res["reported"] = [f"{v.rule} {v.loc} {v.where}: {v.construct}"
